@@ -23,6 +23,7 @@ import (
 	"github.com/regclient/regclient/scheme/reg"
 	"github.com/regclient/regclient/types"
 	"github.com/regclient/regclient/types/descriptor"
+	"github.com/regclient/regclient/types/manifest"
 	"github.com/regclient/regclient/types/ref"
 
 	digest "github.com/opencontainers/go-digest"
@@ -248,6 +249,20 @@ func build(c Case, dir string) (*world, error) {
 	if !w.tgtIsReg() && c.DirPre != "" {
 		tr, _ := ref.New(tgtName)
 		switch c.DirPre {
+		case "other":
+			// the layout already holds an unrelated image under another tag (so it has an index.json)
+			cfgB := []byte("{}")
+			if _, err := w.rc.BlobPut(ctx, tr, descriptor.Descriptor{Digest: digest.FromBytes(cfgB), Size: 2}, bytes.NewReader(cfgB)); err != nil {
+				return nil, fmt.Errorf("setup blob put to target layout: %w", err)
+			}
+			mb := []byte(`{"schemaVersion":2,"mediaType":"application/vnd.oci.image.manifest.v1+json","config":{"mediaType":"application/vnd.oci.empty.v1+json","digest":"sha256:44136fa355b3678a1146ad16f7e8649e94fb4fc21fe77e8310c060f61caaff8a","size":2},"layers":[],"annotations":{"other":"` + uniq + `"}}`)
+			om, err := manifest.New(manifest.WithRaw(mb))
+			if err != nil {
+				return nil, err
+			}
+			if err := w.rc.ManifestPut(ctx, tr.SetTag("other"), om); err != nil {
+				return nil, fmt.Errorf("setup manifest put to target layout: %w", err)
+			}
 		case "blobs":
 			for _, d := range imgen.SortedDigests(clo) {
 				n := clo[d]
@@ -647,6 +662,23 @@ func run(c Case, dir string, res *lib.Result) (ret string) {
 			}
 		}))
 	}
+	if c.Kind == "closeduring" {
+		// another user of the same client closes the target layout (which collects garbage) while the copy is under way: at the
+		// CancelAt-th progress callback and once more a little later
+		closed := 0
+		opts = append(opts, regclient.ImageWithCallback(func(kind types.CallbackKind, instance string, state types.CallbackState, cur, total int64) {
+			cbMu.Lock()
+			cbN++
+			n := cbN
+			cbMu.Unlock()
+			if (n == c.CancelAt || n == c.CancelAt+3) && state == types.CallbackFinished {
+				closed++
+				_ = w.rc.Close(ctx, w.tgtRef)
+			} else if n == c.CancelAt || n == c.CancelAt+3 {
+				_ = w.rc.Close(ctx, w.tgtRef)
+			}
+		}))
+	}
 	tagBefore := w.tgtTag()
 	cerr := w.rc.ImageCopy(cctx, w.srcRef, w.tgtRef, opts...)
 	if ctx.Err() != nil {
@@ -692,7 +724,7 @@ func run(c Case, dir string, res *lib.Result) (ret string) {
 				}
 			}
 		}
-	} else if c.Kind == "copy" || c.Kind == "foreign" {
+	} else if c.Kind == "copy" || c.Kind == "foreign" || c.Kind == "closeduring" {
 		res.Fail("copy-failed-without-fault pair="+c.Pair, fmt.Sprintf("ImageCopy failed with no fault injected: %v", cerr), c)
 	}
 	// ---------- C04 ----------
@@ -998,7 +1030,7 @@ func genCase(r *lib.Rand, focus string) Case {
 	c.Cache = r.Chance(40)
 	c.Again = r.Chance(50)
 	if (c.Pair == "reg2dir" || c.Pair == "dir2dir") && r.Chance(40) {
-		c.DirPre = lib.Pick(r, []string{"blobs", "blobs", "all", "listed"})
+		c.DirPre = lib.Pick(r, []string{"blobs", "blobs", "all", "listed", "other"})
 	}
 	k := r.Intn(100)
 	faultShare := 25
@@ -1072,6 +1104,12 @@ func Run(focus string) func(o lib.Opts) {
 		if focus == "C03" {
 			for i := uint64(0); i < 6; i++ { // layout targets that already list the image: complete, or with the manifest file gone
 				all = append(all, Case{Kind: "copy", Seed: 4400 + i, Pair: lib.Pick(r, []string{"reg2dir", "dir2dir"}), DirPre: lib.Pick(r, []string{"listed", "listed", "all"}), Referrers: i%3 == 0, RefAPI: true})
+			}
+		}
+		if focus == "C03" || focus == "C04" {
+			// the target layout is closed (collected) by another user of the client in the middle of the copy
+			for i := uint64(0); i < 10; i++ {
+				all = append(all, Case{Kind: "closeduring", Seed: 4800 + i, Pair: lib.Pick(r, []string{"reg2dir", "reg2dir", "dir2dir"}), CancelAt: 2 + int(i), DirPre: "other", XGraph: i%3 == 0})
 			}
 		}
 		if focus == "C03" || focus == "C04" {
